@@ -306,7 +306,13 @@ def _check_minimize(prog, rep, fi, call):
             need = [a for a in ("problem", "x0", "tol", "strict") if a in params]
             missing = [a for a in need if not (a in kws and src(kws[a]) == a)] if not n.args else [a for a in need[1:] if not (a in kws and src(kws[a]) == a)]
             ok = isinstance(p, ast.Return) and not missing
-            rep.ob("R06.4", f"{fname}:retry", ok,
+            kwname = fi.node.args.kwarg.arg if fi.node.args.kwarg is not None else None
+            opaque_star = [k for k in n.keywords if k.arg is None and not (isinstance(k.value, ast.Name) and k.value.id == kwname)]
+            absent = [a for a in missing if a not in kws]
+            if not ok and isinstance(p, ast.Return) and (opaque_star or n.args and len(n.args) > 1 or not absent):
+                rep.undecided(f"{fname}:retry: `{src(n)[:60]}` passes {missing} in a form this rule does not read")
+                continue
+            rep.ob("R06.4", f"{fname}:retry", ok, robust=isinstance(p, ast.Return), msg=
                    "the retry returns the recursive call's own result (which passes the same rules) and forwards problem, x0, tol, strict"
                    if ok else ("the retry's result is not returned directly" if not isinstance(p, ast.Return) else f"the retry does not forward {missing}"),
                    loc=f"{fi.module.rel}:{n.lineno}", detail="retry-forwards")
